@@ -155,29 +155,58 @@ class P(Prop):
         ("TracklibVerif.Props.C18", "TV.C18.score_symmetric", "T2: swapping the two tracks gives the same score when the point distance is symmetric (the table is transposed)"),
         ("TracklibVerif.Props.C18", "TV.C18.path_valid", "T3: the list S of the backward walk through M is a monotone unit-step coupling from the last pair to (0,0); nb_links is its length; the 'pair' feature lists exactly its pairs; every observation of both tracks is linked"),
         ("TracklibVerif.Props.C18", "TV.C18.path_realises", "T4: the accumulated cost of the returned coupling equals the reported score (each back-pointer designates a minimal predecessor)"),
-        ("TracklibVerif.Props.C18", "TV.C18.weight_mono", "_p2weight(p) is monotone in the accumulated cost for p = 1, 2, inf over an ordered field"),
+        ("TracklibVerif.Props.C18", "TV.C18.weight_mono", "_p2weight(p) is monotone in the accumulated cost for p = 0, 1, 2, 3, ..., inf over an ordered field"),
         ("TracklibVerif.Props.C18", "TV.C18.distance_symm", "_distance (dim 1, 2, 3) is symmetric over an ordered field, for any sqrt"),
         ("TracklibVerif.Props.C18", "TV.C18.fdtw_equal", "T5: _fdtw (best-first search; the queue only assumed to return an entry of least priority) reports the same score as _dtw, for any accumulation monotone and inflationary on the distances at hand, 'big' above every candidate cost"),
         ("TracklibVerif.Props.C18", "TV.C18.fdtw_path", "T5b: the matching returned by _fdtw (walk through the antecedent map A) is a monotone unit-step coupling whose accumulated cost is the score; pair/nb_links describe it; nobody left out"),
         ("TracklibVerif.Props.C18", "TV.C18.distance_nonneg", "_distance is non-negative when sqrt is"),
-        ("TracklibVerif.Props.C18", "TV.C18.weight_infl", "_p2weight(p) is inflationary on non-negative distances for p = 1, 2, inf"),
+        ("TracklibVerif.Props.C18", "TV.C18.weight_infl", "_p2weight(p) is inflationary on non-negative distances for p = 0, 1, 2, 3, ..., inf"),
         ("TracklibVerif.Props.C18", "TV.C18.match_fdtw_correct", "match(track1, track2, FDTW, p, dim) on non-empty tracks over an ordered field with sqrt >= 0 and big above every candidate cost: succeeds, same score as mode DTW, S is a coupling whose cost is the score, pair/nb_links describe S, nobody left out"),
         ("TracklibVerif.Props.C18", "TV.C18.match_correct", "match(track1, track2, DTW | FRECHET, p, dim) on non-empty tracks over an ordered field: succeeds, score = optimum over couplings, S is a coupling whose cost is the score, pair/nb_links describe S, nobody left out, swapped call reports the same score"),
+        ("TracklibVerif.Props.C18", "TV.C18.p2weight_number", "_p2weight(p) for a number whose type name contains 'int' or 'float' (Python int/float, numpy int8..64, uint8..64, float16..64): the accumulation of the VALUE of p (A + B**k, A + (B != 0) for 0, max for inf)"),
+        ("TracklibVerif.Props.C18", "TV.C18.p2weight_infinite", "an infinite p gives max(A, B) whatever its type (the test p == float('inf') comes last)"),
+        ("TracklibVerif.Props.C18", "TV.C18.p2weight_unrecognised", "a number other than 0 and inf whose type name contains none of int/float/function (numpy.longdouble, longlong, ulonglong, bool) leaves `weight` unbound: UnboundLocalError"),
+        ("TracklibVerif.Props.C18", "TV.C18.match_any_form", "match(track1, track2, <constant of the mode>, p) with p a number of value v in any recognised type is the call match_correct / match_fdtw_correct are about"),
+        ("TracklibVerif.Props.C18", "TV.C18.match_callable_form", "a callable p computing the accumulation of v (lambda, builtin max) is the same call as the number v"),
+        ("TracklibVerif.Props.C18", "TV.C18.match_unknown_mode", "a constant that is not a matching mode is refused (UnknownModeError)"),
+        ("TracklibVerif.Props.C18", "TV.C18.match_history_irrelevant", "match(m, track2) in the modes DTW / FRECHET, where m carries the feature rows of an earlier matching (or user features under the same names), returns exactly match(track1, track2) on the same positions without features"),
+        ("TracklibVerif.Props.C18", "TV.C18.match_fdtw_history", "the same for FDTW under the hypotheses of match_fdtw_correct"),
+        ("TracklibVerif.Props.C18", "TV.C18.session_history_irrelevant", "a whole session of match / compare calls (DTW, FRECHET) on shared objects, results reused as first or second argument: every call returns what it returns on copies that never went through match"),
+        ("TracklibVerif.Props.C18", "TV.C18.links_read_back", "reading the pair lists of the returned track observation by observation gives exactly the coupling S, first pair first (same pairs, order, multiplicity); the number of stored links is nb_links"),
+        ("TracklibVerif.Props.C18", "TV.C18.fdtw_links_read_back", "the same for _fdtw under the hypotheses of fdtw_equal"),
+        ("TracklibVerif.Props.C18", "TV.C18.compare_value", "compare(track1, track2, DTW | FDTW | FRECHET, p) is match followed by: the score for FRECHET, p = inf, p = 0; (score/nb_links)**(1/p) otherwise; errors are those of match"),
+        ("TracklibVerif.Props.C18", "TV.C18.compare_correct", "compare in the modes DTW / FRECHET on non-empty tracks over an ordered field: succeeds; FRECHET / p = inf: the discrete Frechet distance (least over couplings of the largest link); finite p: (score/nb_links)**(1/p) with score the optimum and max(n1,n2) <= nb_links <= n1+n2-1 the length of the returned optimal coupling"),
+        ("TracklibVerif.Props.C18", "TV.C18.compare_mean_power", "with exact arithmetic (root k a k-th root on non-negative numbers) compare(DTW, p = k)**k * nb_links = score = least sum of d**k over all couplings"),
+        ("TracklibVerif.Props.C18", "TV.C18.costBack_nonneg", "accumulated costs are non-negative when sqrt is"),
+        ("TracklibVerif.Props.C18", "TV.C18.npow_nonneg", "B**k >= 0 for B >= 0"),
     ]
     partial = []
-    open_statements = ["compare(): (score/nb_links)**(1/p) for finite p is modelled and compared but no theorem is stated about it (not part of the property); for FRECHET / p = inf compare() returns the score, covered by match_correct",
-                       "IEEE rounding: the theorems are over a linear order / ordered field; on the float runs the oracle compares with relative tolerance 1e-9"]
-    modelled = ("algo/comparison.py: match and compare (modes DTW, FDTW, FRECHET), _distance (dim 1/2/3), _p2weight (p = 1, 2, inf), "
+    open_statements = ["IEEE rounding: the theorems are over a linear order / ordered field; on the float runs the oracle compares with relative tolerance 1e-9",
+                       "session_history_irrelevant excludes the FDTW modes (3 / 107): their coupling is valid only under the hypotheses of match_fdtw_correct; match_fdtw_history is the single-call statement",
+                       "compare() of the FDTW mode: compare_value covers it, compare_correct does not (it would repeat the hypotheses of match_fdtw_correct)",
+                       "non-integer exponents (p = 1.5) and the function form of `dim` are neither modelled nor generated"]
+    modelled = ("algo/comparison.py: match and compare as called — dispatch on the integer mode constants (2/3/4, 106/107/108; UnknownModeError otherwise), "
+                "_dtw_matching / _fdtw_matching, _p2weight as its cascade of four tests on (str(type(p)), value of p) with UnboundLocalError when none fires, "
+                "for p = 0, 1, 2, 3, ... and inf in every Python / numpy scalar type and as a callable; _distance (dim 1/2/3); "
                 "_dtw (distance matrix, first row/column, forward step, predecessor encoding, backward walk), _fdtw + _update_node "
-                "(priority_dict.pop_smallest as 'least (priority, key)'), _fillAF_dtw (pair, diff, ex, ey, nb_links, score), "
-                "_dtw_comparison / _fdtw_comparison")
+                "(priority_dict.pop_smallest as 'least (priority, key)'), _fillAF_dtw on output = track1.copy() carrying the feature rows of an earlier "
+                "matching (createAnalyticalFeature no-op, reset of every pair list, then diff/pair/ex/ey/nb_links/score), _dtw_comparison / _fdtw_comparison "
+                "((score/nb_links)**(1/p), the TypeError of the fast variant on a callable p); sessions of calls on shared objects (runSeq)")
     rule = ("exhaustive: all ordered pairs of small tracks on the lattices {0,1}^2 (dim 2), {0,1,2} (dim 1) and {0,1,2}^2 (dim 2) "
             "(sizes per tier in exhaustive_scopes), each with p = 1, 2, inf, the swapped call and the FDTW score; random: sizes 1..8 (10% up to 12), "
-            "integer / half-integer lattices, axis-aligned integer tracks (exact ties in every dim) and general floats, dim 1/2/3, modes DTW/FDTW/FRECHET, "
-            "one case in ten through compare(). non-trivial = both tracks have at least 2 observations (a three-way minimum and a back-pointer choice exist); "
+            "integer / half-integer lattices, axis-aligned integer tracks (exact ties in every dim), general floats and projected survey coordinates (offsets 6e5 / 5e6, points up to 2 km apart), dim 1/2/3, modes DTW/FDTW/FRECHET, "
+            "one case in ten through compare(). Sessions (kind seq): 1..4 calls of match / compare on 2..4 shared tracks, the first or second argument being "
+            "a track or what an earlier match returned (55% / 20%), 12% of the tracks already carrying diff/pair/ex/ey features (lists, scalars, a subset); "
+            "p = 0, 1, 2, 3, inf in every form (Python int/float, numpy int8..64 / uint8..64 / intc / float16..64, math.inf / numpy.inf / numpy.longdouble(inf), "
+            "lambda, builtin max, omitted), mode constants as int / numpy.int64 / float / omitted / a constant of the other front end, dim as int / numpy.int64 / "
+            "float / omitted, verbose False / True / omitted, keyword or positional; exhaustive: a matched track matched again for every pair of modes, "
+            "every form of p on fixed pairs. The oracle recomputes the optimum for the requested p on the positions of the objects involved and validates "
+            "every returned matching (for p = 0, where 0**0 is a convention, only the matching). "
+            "non-trivial = both tracks have at least 2 observations (a three-way minimum and a back-pointer choice exist); "
             "the input histogram counts the cases where two least predecessors tie")
     trusted = ["priority_dict (heapq with lazy deletion) is modelled by its contract: pop_smallest returns an entry with the least (priority, key)",
-               "numpy float64 `**` and Python float `**` are modelled by `*` for p = 2 (compared with relative tolerance 1e-9)"]
+               "numpy float64 `**` and Python float `**` with an integer-valued exponent are modelled by repeated `*` (compared with relative tolerance 1e-9); x**(1.0/k) by sqrt for k = 2 and libm pow otherwise",
+               "str(type(p)) is computed by the harness on the object it hands to tracklib and passed to the model (blanks removed); the substring tests are the model's"]
 
     def setup(self):
         from tracklib.core.obs_coords import ENUCoords
@@ -200,11 +229,15 @@ class P(Prop):
             return ["mode DTW (with the FDTW score and the swapped score), p in {1,2,inf}: all ordered pairs of tracks of sizes 1..4 on the lattice {0,1}^2, dim 2 (340^2 pairs)",
                     "same, all ordered pairs of tracks of sizes 1..4 on the 1-D lattice {0,1,2}, dim 1 (120^2 pairs)",
                     "same, all ordered pairs of tracks of sizes 1..3 on the lattice {0,1,2}^2, dim 2, track1 up to the 8 symmetries of the square",
-                    "modes FDTW and FRECHET: all ordered pairs of tracks of sizes 1..3 on {0,1}^2 (dim 2) and on the 1-D lattice {0,1,2} (dim 1)"]
+                    "modes FDTW and FRECHET: all ordered pairs of tracks of sizes 1..3 on {0,1}^2 (dim 2) and on the 1-D lattice {0,1,2} (dim 1)",
+                    "a matched track matched again, m = match(t1, t2, modeA, pA); match(m, t3, modeB, pB): every pair of modes (9), (pA, pB) in {(1,1), (2,inf), (inf,2)}, all ordered pairs (t1, t2) of sizes 1..3 on the 1-D lattice {0,1,2}, t3 = mirror image of t2 + one point",
+                    "every form of p (15 forms of 0, 1, 2, 3; 9 forms of inf) x {DTW, FDTW} x {match, compare} on 6 fixed pairs of tracks (dim 1, 2, 3; with and without ties)"]
         return ["mode DTW (with the FDTW score and the swapped score), p in {1,2,inf}: all ordered pairs of tracks of sizes 1..3 on the lattice {0,1}^2, dim 2 (84^2 pairs)",
                 "same, all ordered pairs of tracks of sizes 1..3 on the 1-D lattice {0,1,2}, dim 1 (39^2 pairs)",
                 "same, all ordered pairs of tracks of sizes 1..2 on the lattice {0,1,2}^2, dim 2 (90^2 pairs)",
-                "modes FDTW and FRECHET: all ordered pairs of tracks of sizes 1..3 on the 1-D lattice {0,1,2}, dim 1"]
+                "modes FDTW and FRECHET: all ordered pairs of tracks of sizes 1..3 on the 1-D lattice {0,1,2}, dim 1",
+                "a matched track matched again, m = match(t1, t2, modeA, pA); match(m, t3, modeB, pB): every pair of modes (9), (pA, pB) in {(1,1), (2,inf), (inf,2)}, all ordered pairs (t1, t2) of sizes 1..2 on the 1-D lattice {0,1,2}, t3 = mirror image of t2 + one point",
+                "every form of p (15 forms of 0, 1, 2, 3; 9 forms of inf) x {DTW, FDTW} x {match, compare} on 6 fixed pairs of tracks (dim 1, 2, 3; with and without ties)"]
 
     @staticmethod
     def sym_canon(t, g=3):
@@ -248,7 +281,7 @@ class P(Prop):
             r = rng.random()
             hi = 8 if r < 0.9 else 12
             n1, n2 = rng.randint(1, hi), rng.randint(1, hi)
-            style = rng.choice(["lat3", "lat3", "lat2", "half", "float", "line"])
+            style = rng.choice(["lat3", "lat3", "lat2", "half", "float", "line", "utm"])
             dim = rng.choice([1, 2, 2, 3])
             mode = rng.choice(["dtw", "dtw", "fdtw", "frechet"])
             ps = ["inf"] if mode == "frechet" else [rng.choice(PS)]
@@ -319,7 +352,7 @@ class P(Prop):
 
     def rand_session(self, rng):
         nt = rng.randint(2, 4)
-        style = rng.choice(["lat3", "lat3", "lat2", "half", "float", "line"])
+        style = rng.choice(["lat3", "lat3", "lat2", "half", "float", "line", "utm"])
         hi = 4 if rng.random() < 0.6 else 7
         tracks = [self.rand_track(rng, rng.randint(1, hi), style) for _ in range(nt)]
         pre = [rng.choice(["lists", "scalars", "partial"]) if rng.random() < 0.12 else "none" for _ in range(nt)]
@@ -362,6 +395,8 @@ class P(Prop):
         if style == "line":   # axis-aligned: distances are integers, ties are exact in every dim
             return [[float(rng.randint(0, 4)), 0.0, float(rng.randint(0, 3))] for _ in range(n)] if rng.random() < 0.5 else \
                    [[0.0, float(rng.randint(0, 4)), 0.0] for _ in range(n)]
+        if style == "utm":    # projected coordinates of a real survey: large offsets, metres to kilometres between points
+            return [[6.0e5 + round(rng.uniform(0, 2000), 2), 5.0e6 + round(rng.uniform(0, 2000), 2), round(rng.uniform(100, 900), 1)] for _ in range(n)]
         return [[rng.uniform(-10, 10), rng.uniform(-10, 10), rng.uniform(-3, 3)] for _ in range(n)]
 
     def has_tie(self, case):
